@@ -18,7 +18,7 @@ RULE = ("error trees are the reachable ones: produced by failed conversions of n
         "duplicate/unknown(mixed-kind)/absent keys, raising predicates, stdlib constructors that raise, raising __post_init__; "
         "oracle: str() returns, twice the same, same as the text of a second identical conversion, and contains every path "
         "component in nesting order, every leaf's expectation, every missing/extra/duplicate name, the offending value of every "
-        "leaf outside a sum (and one recovered value per sum), the bounds of length errors and the last line of every cause. "
+        "leaf outside a sum (and one recovered value per sum), the bounds of length errors and every line of the message of every cause. "
         "distinct = (tree shape signature)")
 ASSUMPTIONS = ["only presence and order of the required tokens is asserted, not wording or layout",
                "the expectation strings of intermediate product nodes fused into a dotted path are not required (the statement asks for every leaf's)"]
@@ -42,12 +42,12 @@ def shape(node, depth=0):
     return type(node).__name__[0] + ('c' if getattr(node, 'cause', None) is not None else '')
 
 
-def cause_line(tbexc):
+def cause_lines(tbexc):
+    """Every line of 'ExcType: message' (a message may have several lines: a validator listing its complaints, a nested ConvertError)."""
     try:
-        lines = list(tbexc.format_exception_only())
-        return lines[-1].strip() if lines else None
+        return [ln.strip() for chunk in tbexc.format_exception_only() for ln in chunk.splitlines() if ln.strip()]
     except Exception:
-        return None
+        return []
 
 
 def required(ctx, node, text, path=(), in_sum=False, problems=None):
@@ -109,7 +109,8 @@ def required(ctx, node, text, path=(), in_sum=False, problems=None):
             need(node.actual_len, 'actual length')
     if getattr(node, 'cause', None) is not None:
         ctx.count('causes_checked')
-        need(cause_line(node.cause), 'message of the underlying exception')
+        for ln in cause_lines(node.cause):
+            need(ln, 'message of the underlying exception')
     if isinstance(node, E.ConditionFailedError) and node.cause is None:
         need(node.condition, 'name of failed condition')
     return problems
